@@ -750,7 +750,67 @@ def r18(ctx):
         raise AnalysisBroken('C13.R18: no decode into a string stream found in the checkValue functions')
 
 
+def r19(ctx):
+    ctx.rule('C13.R19', 'a change of the stored data is noticed: SymbolString::compareTo answers "only the master address differs" '
+             '(2, for which Message::storeLastData keeps the change time) only after the symbols behind the first one were '
+             'compared and found equal (std::equal over the rest) or when there are none (size() == 1) - answered as soon as '
+             'the first symbol differs, an update that changes sender and value at once does not advance the change time and '
+             'the conditions that depend on the message are not evaluated again', minimum=1)
+    fb = ctx.fb
+    fn = fb.fn('ebusd::SymbolString::compareTo')
+    ctx.touch(fn)
+    loops = fn.all('ForStmt', 'WhileStmt', 'DoStmt', 'CXXForRangeStmt')
+    n = 0
+    for r in fn.all('ReturnStmt'):
+        val = fn.nodes[r].get('val')
+        if val is None or fn.val(val) != 2:
+            continue
+        n += 1
+        atoms = set((a[0], a[1]) for a in fn.atoms(r))
+        rest = any(pol and 'equal(' in k and '#1' in k for k, pol in atoms)
+        single = any(pol and k in ('(this.m_data.size() == #1)', '(this.m_data.size() <= #1)', '(this.m_data.size() < #2)') for k, pol in atoms)
+        if not rest and not single and loops:
+            raise AnalysisBroken('C13.R19: compareTo compares in a loop, the rule does not follow it')
+        ctx.ob('C13.R19', fn, r, rest or single, 'compareTo answers "only the master address differs"',
+               'behind a comparison of the rest (%s) or with a single symbol (%s)' % (rest, single))
+    if n < 1:
+        raise AnalysisBroken('C13.R19: no return of 2 in SymbolString::compareTo')
+
+
+def r20(ctx):
+    ctx.rule('C13.R20', 'a condition that guards another message is not extended: in MessageMap::readConditions a combination '
+             'taken directly out of the stored conditions (*condition = <entry of m_conditions>) is handed out as it is - from '
+             'such a store no call of combineAnd on *condition is reachable; the receiver of combineAnd is the simple '
+             'condition of the first bracket or a combination created in this call - CombinedCondition::combineAnd appends in '
+             'place, and a further part appended to a stored [a][b] makes the messages guarded by [a][b] depend on it too', minimum=1)
+    fb = ctx.fb
+    fn = fb.fn('ebusd::MessageMap::readConditions')
+    ctx.touch(fn)
+    out = '*' + fn.P(3)
+    combs = [c for c in fn.calls('combineAnd') if fn.key(c).startswith(out + '.combineAnd(') or fn.key(c).startswith('(' + out + ').combineAnd(')]
+    if not combs:
+        raise AnalysisBroken('C13.R20: the call of combineAnd on the condition handed out was not found')
+    n = 0
+    asg = list(fn.assignments())
+    writes = set(nid for nid, d, rhs, op, lhs in asg if lhs is not None and fn.key(lhs) == out)
+    for nid, d, rhs, op, lhs in asg:
+        if lhs is None or fn.key(lhs) != out or rhs is None:
+            continue
+        rk = fn.key(rhs)
+        if not (rk.endswith('.second') and 'operator->' in rk or '.second' in rk and 'm_conditions' in rk):
+            continue
+        n += 1
+        b, i = fn.pos(nid)
+        bad = [c for c in combs if fn.reaches_point(b, fn.pos(c), writes - {nid}, start_idx=i + 1)]
+        ctx.ob('C13.R20', fn, nid, not bad, 'stored condition handed out', 'no combineAnd on it is reachable: %s%s' % (
+            not bad, '' if not bad else ' (line %d)' % fn.line_of(bad[0])))
+    if n < 1:
+        raise AnalysisBroken('C13.R20: the reuse of a stored condition was not found in readConditions')
+
+
 def run(ctx):
+    r20(ctx)
+    r19(ctx)
     r18(ctx)
     r17(ctx)
     r16(ctx)
